@@ -54,6 +54,7 @@ KEYKINDS = {
     "sg.short_name": "short_name",
     "sg.pdb_name": "pdb_name",
     "sg.pdb_name.replace(' ', '')": "pdb_nospace",
+    "_hashSymOpList(sg.symop_list)": "hash",
 }
 
 
@@ -69,6 +70,7 @@ class _Builder:
         self.loops = []          # key kinds per fill loop (index = position in self.loops)
         self.loop_ids = []       # global loop numbers, filled by analyse()
         self.aliases = None
+        self.cross_writes = []   # a builder writing the other table's global (modelled; never of the safe shape)
         self.ir = []             # python mirror of stmts
 
     def tref(self, node):
@@ -201,7 +203,10 @@ class _Builder:
             self.lines[body[1].lineno] = self.cost(r)
             self.loops.append(["hash"])
             return self.emit(("BFill %s FSet " % self.coq_ref(r)) + "%d", ("fill", r, "set", len(self.loops) - 1), st.lineno, 0)
-        kinds, ref = [], None
+        # setdefault form; the statements of one pass may address several dictionaries.  Writes to the local
+        # dictionary are invisible to other threads, so a pass with local writes and writes to ONE module table is the
+        # same, for every observer, as a local loop followed by a loop over that module table (one BFill each).
+        groups = []          # [(ref, [kinds])] in order of first appearance
         for b in body:
             ok = (isinstance(b, ast.Expr) and isinstance(b.value, ast.Call) and isinstance(b.value.func, ast.Attribute)
                   and b.value.func.attr == "setdefault" and len(b.value.args) == 2 and not b.value.keywords
@@ -212,15 +217,23 @@ class _Builder:
             if k not in KEYKINDS:
                 _refuse(b, "key expression not understood: " + k[:60])
             r = self.tref(b.value.func.value)
-            if ref is not None and r != ref:
-                _refuse(b, "one loop fills two dictionaries")
-            ref = r
-            kinds.append(KEYKINDS[k])
+            for g in groups:
+                if g[0] == r:
+                    g[1].append(KEYKINDS[k])
+                    break
+            else:
+                groups.append((r, [KEYKINDS[k]]))
             self.lines[b.lineno] = self.lines.get(b.lineno, 0) + self.cost(r)
-        if ref is None:
+        if not groups:
             _refuse(st, "empty loop")
-        self.loops.append(kinds)
-        return self.emit(("BFill %s FDefault " % self.coq_ref(ref)) + "%d", ("fill", ref, "default", len(self.loops) - 1), st.lineno, 0)
+        if sum(1 for r, _ in groups if r[0] == "S") > 1:
+            _refuse(st, "one pass writes two module-level tables (their interleaving cannot be split into loops)")
+        for r, kinds in groups:
+            if r[0] == "S" and r[1] != self.own:
+                self.cross_writes.append("%s writes the other table %s at line %d" % (self.f.name, r[1], st.lineno))
+            self.loops.append(kinds)
+            self.emit(("BFill %s FDefault " % self.coq_ref(r)) + "%d", ("fill", r, "default", len(self.loops) - 1), st.lineno, 0)
+        return
 
     def alias(self, st):
         self.lines[st.lineno] = 0
@@ -469,6 +482,7 @@ def analyse(src_dir=None):
     return {
         "builders": builders, "get": get, "find": find, "recipe": recipe, "loops": loops,
         "aliases": builders["GId"].aliases or [],
+        "cross_writes": [w for b in builders.values() for w in b.cross_writes],
         "lines": {"_buildSGLookupTable": builders["GId"].lines, "_getSGHashLookupTable": builders["GHash"].lines,
                   "GetSpaceGroup": glines, "FindSpaceGroup": flines, "IsSpaceGroupIdentifier": ilines},
         "ranges": {n: (f.lineno, f.end_lineno) for n, f in funcs.items()},
@@ -491,6 +505,7 @@ def generate():
            "From Coq Require Import ZArith List Bool.", "From DS Require Import Model.C19_Threads.",
            "Import ListNotations.", "Open Scope nat_scope.", "", coq_prog(a),
            "(* key kinds of the fill loops: " + "; ".join("%d = %s" % (i, ",".join(k)) for i, k in sorted(a["loops"].items())) + " *)",
+           "(* cross-table writes: %s *)" % ("; ".join(a["cross_writes"]) or "none"),
            "Definition gen_alias_count : nat := %d." % len(a["aliases"])]
     return {"Gen/C19_LazyTables.v": "\n".join(out) + "\n"}
 
